@@ -42,7 +42,8 @@ def decode(d):
         obj = ["matrix", gen.matrix(d)["m"], gen.matrix(d)["m"]]
         if d.chance(1, 3):
             # a translation in inches / millimetres stays a Length inside the matrix until it is rendered with a ppi
-            obj.append("translate(%din, %dmm) scale(2)" % (d.int(1, 5), d.int(1, 30)) if d.bool() else "translate(%dcm, %din)" % (d.int(1, 5), d.int(1, 3)))
+            amt = lambda: d.choice(["1", "2.5", "3", "1.2345678901234567", "2.000000000000123", "7", "0.1000000000000001"])
+            obj.append("translate(%sin, %smm) scale(2)" % (amt(), amt()) if d.bool() else "translate(%scm, %sin)" % (amt(), amt()))
         derive = d.choice(["copy", "invert", "matmul"])
         if len(obj) > 3:
             derive = "copy"  # (inverting or multiplying symbolic offsets is C04's subject and partly a known finding)
@@ -101,7 +102,15 @@ def build(obj):
         return se.Point(obj[1][0], obj[1][1])
     if fam == "matrix":
         if len(obj) > 3:
-            return se.Matrix(obj[3])
+            m = se.Matrix(obj[3])
+            if "scale" not in obj[3]:
+                # the same matrix with the offsets assigned as Length objects (their amounts exactly as written)
+                import re as _re
+                a, b = _re.findall(r"([0-9.e-]+)(in|mm|cm)", obj[3])
+                m = se.Matrix()
+                m.e = se.Length(float(a[0]), a[1])
+                m.f = se.Length(float(b[0]), b[1])
+            return m
         return lib.mk_matrix(obj[1])
     if fam == "color":
         return se.Color("#%08x" % obj[1])
@@ -168,7 +177,9 @@ def snap_color(c):
 
 
 def snap_matrix(m):
-    return None if m is None else ("matrix", repr(m.a), repr(m.b), repr(m.c), repr(m.d), repr(m.e), repr(m.f))
+    # (a symbolic offset by its exact amount and unit: the text form of a Length keeps twelve decimals only)
+    off = lambda v: (repr(v.amount), v.units) if hasattr(v, "amount") else repr(v)
+    return None if m is None else ("matrix", repr(m.a), repr(m.b), repr(m.c), repr(m.d), off(m.e), off(m.f))
 
 
 def snap_point(p):
